@@ -40,7 +40,7 @@ class Stream:
     def __call__(self, nbits):
         mask = (1 << nbits) - 1
         if nbits > 8:
-            return self.ident & mask
+            return mask if self.ident < 0 else self.ident & mask  # "ones": all-one draw of whatever width is asked
         self.i += 1
         if self.kind == "zero":
             return 0
@@ -87,6 +87,8 @@ def ident_of(name, seed):
         return int.from_bytes(filler(seed, "ident", 0, 2), "big") & 0x7FFF
     if name == "fill2":
         return (int.from_bytes(filler(seed, "ident", 0, 2), "big") + 0x1234) & 0x7FFF
+    if name == "ones":
+        return -1
     return int(name)
 
 
@@ -119,7 +121,7 @@ CFG_DEVS = [
     {"rs": "ones"},
     {"rs": "ctr"},
     {"id": "0"},
-    {"id": "32767"},
+    {"id": "ones"},
 ]
 CFG_256 = {"bits": 256, "sv": "f1", "pp": "trezor", "e": 0, "id": "fill2", "rs": "ctr"}
 
